@@ -25,7 +25,8 @@ from harness.translate import gen as G
 PROPERTY = "C01"
 LEAN_MODULES = ["SigpyVerif.Props.C01", "SigpyVerif.Lemmas.C01Block", "SigpyVerif.Props.C09",
                 "SigpyVerif.Lemmas.C01Index", "SigpyVerif.Props.C01Leaves", "SigpyVerif.Props.C01MatMul",
-                "SigpyVerif.Props.C01LeavesGen", "SigpyVerif.Props.C01Gen", "SigpyVerif.Props.C01Ext"]
+                "SigpyVerif.Props.C01LeavesGen", "SigpyVerif.Props.C01Gen", "SigpyVerif.Props.C01Ext",
+                "SigpyVerif.Props.C01Fft"]
 THEOREMS = ["SigpyVerif.C01." + t for t in [
     # algebra of entry lists (Props/C01.lean)
     "applyF_append", "applyF_compE", "applyF_conjE", "coo_adjoint", "isAdj_of_entries", "isAdj_comp", "isAdj_comp3",
@@ -77,12 +78,14 @@ THEOREMS = ["SigpyVerif.C01." + t for t in [
     "matmul_leaf_adjoint", "rmatmul_leaf_adjoint",
     # the model's adjoint rules are the translation of every `_adjoint_linop` in linop.py (Props/C01Gen.lean, about
     # Gen/LinopAdjoint.lean); FiniteDifference's generated tree has proved leaves only
-    "multiplySumAxes_gen", "matmulSumAxes_gen", "oshOf_sum", "adjLeaf_multiply_gen", "adjLeaf_matmul_gen",
+    "multiplySumTest_spec", "matmulSumTest_spec", "multiplySumAxes_gen", "matmulSumAxes_gen", "oshOf_sum", "adjLeaf_multiply_gen", "adjLeaf_matmul_gen",
     "adjLeaf_rmatmul_gen", "adjLeaf_eq_gen", "adjLeaf_eq_gen_simple", "adj_eq_gen", "allLeaves_imp", "adj_denote_gen",
     "allLeaves_vstackList", "finiteDifference_leaves", "finiteDifference_adjoint",
     # leaf classes imported from C08 through the generated pairing table (Props/C01Ext.lean)
     "matOf_congr", "matOf_isAdj", "sum_delta_right", "conv1Params_spec", "shapeProd_single", "conv_data_entries",
-    "conv_filt_entries", "conv_leaf_proved", "conv_leaf_adjoint", "conv_tree_adjoint",
+    "conv_filt_entries", "conv_leaf_proved", "adjOpaque_table", "conv_leaf_adjoint", "conv_tree_adjoint",
+    # FFT / IFFT leaves over C imported from C05's N-d table (Props/C01Fft.lean)
+    "idx_ofFn", "fft_entry_conj", "fftE_inv_eq", "ifftE_perm_adj", "fft_leaf_proved", "fft_tree_adjoint",
 ]] + ["SigpyVerif.C09." + t for t in ["resize_transpose", "roll_inverse", "up_down_index", "b2a1_transpose_a2b1"]]
 
 MAXEL = 24  # largest input / output size of a generated operator
@@ -90,9 +93,9 @@ MAXEL = 24  # largest input / output size of a generated operator
 
 def translate(ctx):
     # LinopAdjoint: every `_adjoint_linop`, the sum-axes helpers and the FiniteDifference factory (gen_c01.py);
-    # Conv*: imported (through Props/C08) by Props/C01Ext
+    # Conv*: imported (through Props/C08) by Props/C01Ext; Fourier: imported (through Props/C05Nd) by Props/C01Fft
     G.regenerate(ctx, ["Block", "UtilFormulas", "LinopFormulas", "Interp", "LinopAdjoint",
-                       "ConvFormulas", "ConvWiring", "ConvLinops", "ConvParams"])
+                       "ConvFormulas", "ConvWiring", "ConvLinops", "ConvParams", "Fourier"])
 
 
 # ---- protocol helpers -----------------------------------------------------------------------
@@ -883,9 +886,11 @@ def correspond(ctx, which=("M", "MH")):
         "(Gen.LinopAdjoint) and proved equal to the model's adj (adjLeaf_eq_gen, adj_eq_gen); the per-class map "
         "'attribute -> constructor parameter' is read from __init__ (super().__init__ / self.x = x), except the "
         "normalised attributes Sum.axes, Tile.axes, Transpose.axes whose source text is pinned in gen_c01.py",
-        "oracle-only leaves (dot test, no C01 theorem): FFT / IFFT (C05 proves the conjugate-transpose table over the "
-        "Fin-indexed matrices, not bridged to entry lists here; the pairing FFT.H = IFFT with the same axes / center "
-        "is in the generated table adjOpaque), Wavelet / InverseWavelet (C10: list-level adjoint of its own model), "
+        "FFT / IFFT (N-d, any axes, centred or not, norm='ortho'): leaves over C whose entries are the complex numbers "
+        "C05's executable table denotes; FFT.H = IFFT(same axes, center) from the generated table + C05 "
+        "ifft_table_eq_conjTranspose (fft_leaf_proved); the table itself is tied to fourier.py by C05's check",
+        "oracle-only leaves (dot test, no C01 theorem; their pairing class/arguments are pinned by adjOpaque_table): "
+        "Wavelet / InverseWavelet (C10 proves iwt1_is_adjoint about its own list-level model; no entry lists), "
         "multi-channel / N-D / batched convolutions (C08 has the theorems; only the 1-D single-channel entry lists "
         "are bridged), NUFFT / NUFFTAdjoint and Kaiser-Bessel Interpolate / Gridding (irrational weights), "
         "ToDevice / AllReduce (no arithmetic), the MRI factories (C16)",
@@ -930,6 +935,32 @@ def correspond(ctx, which=("M", "MH")):
             bad += corr_case(ctx, spec, A, r, "finite-difference-generated", which)
         ctx.oblige("correspondence:%s.finite-difference-generated" % ctx.prop, "correspondence", bad == 0,
                    "%d disagreements" % bad)
+        # imported leaves: the two entry lists of the `ext` leaf of a 1-D single-channel convolution class (C08 model
+        # of the class / of the class the generated _adjoint_linop table returns; Props/C01Ext.lean proves them adjoint)
+        # against the matrices of the real operator and of its .H
+        ce, lines = [], []
+        for _ in range(24 if quick else 120):
+            kind = rng.choice(["convdata", "convdataadj", "convfilt", "convfiltadj"])
+            m, n, mode = rng.randint(1, 6), rng.randint(1, 4), rng.choice(["full", "valid"])
+            if mode == "valid" and n > m:
+                m, n = n, m
+            s = rng.choice([None, 1, 2, 3])
+            strides = None if s is None else [s]
+            if kind in ("convdata", "convdataadj"):
+                arr = [gint(rng) for _ in range(n)]
+                p = dict(dsh=[m], fsh=[n], filt=arr, mode=mode, strides=strides, mc=False)
+            else:
+                arr = [gint(rng) for _ in range(m)]
+                p = dict(dsh=[m], fsh=[n], data=arr, mode=mode, strides=strides, mc=False)
+            ce.append((["leaf", kind, p], leaf_build(kind, p)))
+            lines.append("%s convext %s %s %s %s %s %s" % (ctx.prop, kind, L([m]), L([n]), Gl(arr), mode, O(strides)))
+        replies = ctx.driver_guarded(lines)
+        bad = 0
+        for (spec, A), ln, r in zip(ce, lines, replies):
+            ctx.count("leaf:ext-" + spec[1])
+            ctx.case(ln, sample=dict(line=ln, reply=r[:160]) if ctx.evaluations % 11 == 0 else None)
+            bad += corr_case(ctx, spec, A, r, "conv-ext", which)
+        ctx.oblige("correspondence:%s.conv-ext" % ctx.prop, "correspondence", bad == 0, "%d disagreements" % bad)
     ctx.traces = ctx.evaluations
 
 
